@@ -130,6 +130,12 @@ def run(ctx):
         pr = Probe(facts={cfg: F})
         c13.run(pr)
         ctx.oblige("C12|lossy-semantics", not pr.failed, "a lossy decoder alters or drops values beyond what is documented: %s" % "; ".join("%s: %s" % (k, m[:160]) for k, m in pr.failed[:2]), cfg=cfg)
+        # an element of a filtered list that exceeds its own limits (a 33-byte type string, an alg outside i32) fails in the
+        # element decoder, and that failure must fail the request: the list decoders may only skip *decodable* unknown entries
+        from . import c14
+        pr14 = Probe(facts={cfg: F})
+        c14.run(pr14)
+        ctx.oblige("C12|list-decoders", not pr14.failed, "a list decoder skips or swallows entries it should reject: %s" % "; ".join("%s: %s" % (k, m[:160]) for k, m in pr14.failed[:2]), cfg=cfg)
         hand = sorted({(f["impl"]["self_ty"].get("path") or f["impl"]["self_ty"]["s"]) for f in F.fns
                        if f["name"] == "deserialize" and (f.get("impl") or {}).get("trait") == DE and f["impl"].get("impl_pv") == "user"
                        and "__" not in f["impl"]["self_ty"]["s"] and "::deserialize::" not in f["impl"]["self_ty"]["s"]})
